@@ -9,13 +9,18 @@ Tie (model = implementation, same inputs):
     locatorInDomain;
   * iterables.pivot on generated lists / arrays;
   * real HexBlocks (pin lattice with multi-index locators, a single-index child, a free CoordinateLocation
-    child, a child without locator) with random corner/edge vectors and displacement, rotated by every k.
+    child, a child without locator) with random corner/edge vectors and displacement, rotated by every k;
+  * blocks with SEVERAL multi-location children at different sites (2-4 pin types: blueprint lattice maps built by
+    armi's blueprint machinery, and hand-built blocks incl. children sharing one locator object, single-site and
+    empty multi-locators, children in random order), rotated by k in 0..11 and by sequences; HexAssembly.rotate on
+    assemblies of such blocks (accepted and refused angles) vs Hex.rotateHexAssembly.
 Oracle (property clauses evaluated on the real objects, independent of the model): coordinates of the rotated
 index are the numerically rotated coordinates; composition, period six, ring preservation; equivalents are the
 120/240 degree (hex) or 90-degree / mirror (Cartesian) images of the cell centre; exactly one orbit member in
 the domain off the symmetry lines, 1/2 on them; line class <-> angle of the centre; block rotation moves pins,
 free children, corner/edge vectors, displacement and orientation by k x 60 degrees.
 """
+import contextlib
 import copy
 import math
 
@@ -33,6 +38,8 @@ ASSUMPTIONS = [
     "math.cos/math.sin at multiples of 60 degrees are modelled by their exact values in Q(sqrt 3); agreement to 1e-9 "
     "is checked on every rotated free-coordinate child and displacement",
     "symmetry strings -> (domain, boundary, throughCenter) decoding (geometry.SymmetryType) is exercised, not modelled",
+    "HexAssembly.rotate: the float remainder rad % (pi/3) is a parameter of the model guard (computed with the code's own "
+    "expression); the guard itself (min(rem, pi/3 - rem) <= 1e-12) and the per-block loop are modelled",
 ]
 
 KS = list(range(-14, 15))
@@ -659,10 +666,13 @@ def run_blocks(ctx):
             rad = k * math.pi / 3
             rotNum = round((rad % (2 * math.pi)) / math.radians(60))
             case = {"block": src.getName(), "variant": t, "k": k}
+            snap0 = site_snapshot(b) if before["hasGrid"] else None
             b.rotate(rad)
             after = block_state(b)
             pins1 = b.getPinCoordinates() if before["hasGrid"] else np.zeros((0, 3))
             block_oracle(ctx, case, b, before, after, pins0, pins1, k)
+            if snap0 is not None:
+                multi_oracle(ctx, case, snap0, site_snapshot(b), k, pins0, pins1)      # every child, every site
             req.append(encode_block(before, rotNum)); pending.append((case, after))
             nrot += 1
             # composition: a second rotation by l lands where rotate(k + l) would
@@ -728,6 +738,436 @@ def run_blocks(ctx):
     ctx.count("HexAssembly.rotate calls", len(KS) + 4)
 
 
+# ------------------------------------------------------------------------------------------ several pin types
+def ring_cells(g, ring):
+    from armi.utils import hexagon
+
+    return [tuple(int(v) for v in g.getIndicesFromRingAndPos(ring, pos)) for pos in range(1, hexagon.numPositionsInRing(ring) + 1)]
+
+
+LATTICE_FAMILIES = ["alternating 3+3", "two single sites", "6+6 in different rings", "equal-size random sets", "opposite pairs 2+2+2",
+                    "unequal sizes"]
+
+
+def lattice_sites(rng, family, nrings=3):
+    """{pin type id: [cells]} -- several pin types with the SAME number of sites at DIFFERENT cells."""
+    from armi.reactor import grids
+
+    g = grids.HexGrid.fromPitch(1.0, numRings=0)
+    r2, r3 = ring_cells(g, 2), ring_cells(g, 3)
+    allc = [(0, 0)] + r2 + r3 + (ring_cells(g, 4) if nrings >= 4 else [])
+    if family == "alternating 3+3":
+        o = rng.randrange(2)
+        out = {1: r2[o::2], 2: r2[1 - o::2]}
+        if rng.random() < 0.6:
+            out[3] = [(0, 0)] + (r3[::4] if rng.random() < 0.5 else [])
+        if rng.random() < 0.4:
+            o3 = rng.randrange(4)
+            out[4] = [c for n, c in enumerate(r3) if n % 4 == o3 and c not in out.get(3, [])]
+    elif family == "two single sites":
+        a, b = rng.sample(allc[1:], 2)
+        out = {1: [a], 2: [b]}
+        rest = [c for c in allc if c not in (a, b)]
+        if rng.random() < 0.7:
+            out[3] = [rng.choice(rest)]
+        if rng.random() < 0.5:
+            out[4] = [c for c in rest if c not in out.get(3, [])][: rng.randint(2, 9)]
+    elif family == "6+6 in different rings":
+        o = rng.randrange(2)
+        out = {1: list(r2), 2: r3[o::2]}
+        if rng.random() < 0.6:
+            out[3] = r3[1 - o::2]
+        if rng.random() < 0.5:
+            out[4] = [(0, 0)]
+    elif family == "equal-size random sets":
+        nt = rng.randint(2, 4)
+        m = rng.randint(1, len(allc) // nt)
+        cells = rng.sample(allc, nt * m)
+        out = {t + 1: cells[t * m:(t + 1) * m] for t in range(nt)}
+    elif family == "opposite pairs 2+2+2":
+        out = {t + 1: [r2[t], r2[t + 3]] for t in range(3)}
+        if rng.random() < 0.5:
+            out[4] = [r3[0], r3[6]]
+    else:
+        nt = rng.randint(2, 4)
+        cells = list(allc)
+        rng.shuffle(cells)
+        out, pos = {}, 0
+        for t in range(nt):
+            m = rng.randint(1, max(1, (len(cells) - pos) // (nt - t)))
+            out[t + 1] = cells[pos:pos + m]
+            pos += m
+    return {t: v for t, v in out.items() if v}
+
+
+def lattice_text(contents, cornersUp):
+    """the ascii lattice map of a blueprint `grids:` entry (written by armi's own ascii-map writer)."""
+    import io
+
+    from armi.reactor import geometry
+    from armi.utils import asciimaps
+
+    cls = asciimaps.asciiMapFromGeomAndDomain(geometry.HEX_CORNERS_UP if cornersUp else geometry.HEX, geometry.DomainType.FULL_CORE)
+    m = cls()
+    m.asciiLabelByIndices = dict(contents)
+    m.gridContentsToAscii()
+    out = io.StringIO()
+    m.writeAscii(out)
+    return out.getvalue()
+
+
+def blueprint_text(sites, cornersUp, union, nrings):
+    from armi.reactor import grids
+
+    g = grids.HexGrid.fromPitch(1.0, numRings=0)
+    cells = [(0, 0)] + [c for r in range(2, nrings + 1) for c in ring_cells(g, r)]
+    contents = {c: "-" for c in cells}
+    for t, cs_ in sites.items():
+        for c in cs_:
+            contents[c] = str(t)
+    comps = []
+    for t in sorted(sites):
+        comps.append(f"""        pin{t}:
+            shape: Circle
+            material: HT9
+            Tinput: 25.0
+            Thot: 25.0
+            id: 0.0
+            od: 0.3
+            latticeIDs: [{t}]
+        clad{t}:
+            shape: Circle
+            flags: clad
+            material: HT9
+            Tinput: 25.0
+            Thot: 25.0
+            id: 0.3
+            od: 0.35
+            latticeIDs: [{t}]
+""")
+    if union:
+        comps.append(f"""        wrap:
+            shape: Circle
+            material: HT9
+            Tinput: 25.0
+            Thot: 25.0
+            id: 0.35
+            od: 0.36
+            latticeIDs: [{','.join(str(x) for x in union)}]
+""")
+    try:
+        text = lattice_text(contents, cornersUp)
+    except ValueError:
+        # armi's writer refuses maps with a completely blank row: fill the holes with an id no component uses
+        text = lattice_text({c: ("0" if v == "-" else v) for c, v in contents.items()}, cornersUp)
+    lat = "\n".join("         " + ln for ln in text.splitlines())
+    block = f"""        grid name: pins
+{''.join(comps)}        coolant:
+            shape: DerivedShape
+            material: Sodium
+            Tinput: 25.0
+            Thot: 25.0
+        duct:
+            shape: Hexagon
+            material: HT9
+            Tinput: 25.0
+            Thot: 25.0
+            ip: 16.0
+            mult: 1.0
+            op: 16.6
+"""
+    return f"""blocks:
+    fuel: &block_fuel
+{block}
+    fuel2: &block_fuel2
+{block}
+assemblies:
+    fuel:
+        specifier: IC
+        blocks:  [*block_fuel, *block_fuel2, *block_fuel]
+        height: [25.0, 15.0, 10.0]
+        axial mesh points:  [1, 1, 1]
+        xs types: [A, A, A]
+grids:
+    pins:
+       geom: {'hex_corners_up' if cornersUp else 'hex'}
+       symmetry: full
+       lattice map: |
+{lat}
+"""
+
+
+def blueprint_assembly(rng, family, cornersUp):
+    """a HexAssembly of pin-lattice blocks built by armi's blueprint machinery from a lattice map with 2-4 pin types."""
+    import io
+
+    from armi import settings
+    from armi.reactor import blueprints
+
+    nrings = rng.choice([3, 3, 4])
+    sites = lattice_sites(rng, family, nrings)
+    types = sorted(sites)
+    union = rng.sample(types, 2) if len(types) >= 2 and rng.random() < 0.5 else None
+    txt = blueprint_text(sites, cornersUp, union, nrings)
+    with common.scratch_dir(), common.quiet():
+        cs = settings.Settings()
+        bp = blueprints.Blueprints.load(io.StringIO(txt))
+        bp._prepConstruction(cs)
+        a = bp.assemDesigns.bySpecifier["IC"].construct(cs, bp)
+    return a, sites, txt
+
+
+@contextlib.contextmanager
+def hushed():
+    """armi's runLog keeps its own handle on stdout: raise its threshold while blueprints are built."""
+    from armi import runLog
+
+    saved = (runLog.header, runLog.error)
+    runLog.header = runLog.error = lambda *a, **k: None
+    try:
+        yield
+    finally:
+        runLog.header, runLog.error = saved
+
+
+def synthetic_block(rng, family, cornersUp):
+    """a HexBlock assembled by hand: several components, each with its OWN MultiIndexLocation on the block's grid (some
+    sharing one locator object), mixed with single-index, free-coordinate and locator-less children in random order."""
+    from armi.reactor import blocks, grids
+    from armi.reactor.components import Circle, Hexagon
+    from armi.reactor.flags import Flags
+
+    b = blocks.HexBlock("synthetic", height=10.0)
+    grid = grids.HexGrid.fromPitch(common.dyadic(rng, 0.5, 3, 4), numRings=rng.choice([3, 4, 5]), armiObject=b, cornersUp=cornersUp)
+    b.spatialGrid = grid
+    sites = lattice_sites(rng, family, 4)
+    kz = 0 if rng.random() < 0.85 else rng.randint(1, 2)
+    children, shared = [], None
+    for t, cells in sites.items():
+        loc = grids.MultiIndexLocation(grid)
+        if rng.random() < 0.5:
+            loc.extend([grids.IndexLocation(i, j, kz, grid) for i, j in cells])      # fresh locator objects
+        else:
+            loc.extend([grid[i, j, kz] for i, j in cells])                            # the grid's own cell objects
+        pin = Circle(f"pin{t}", "HT9", Tinput=25.0, Thot=25.0, od=0.3, id=0.0, mult=len(cells))
+        pin.p.flags = Flags.FUEL if t % 2 else Flags.CONTROL
+        pin.spatialLocator = loc
+        clad = Circle(f"clad{t}", "HT9", Tinput=25.0, Thot=25.0, od=0.35, id=0.3, mult=len(cells))
+        clad.p.flags = Flags.CLAD
+        r = rng.random()
+        if r < 0.4:
+            clad.spatialLocator = loc                                                 # ONE locator object, two children
+        else:
+            own = grids.MultiIndexLocation(grid)
+            own.extend([grids.IndexLocation(i, j, kz, grid) for i, j in (cells if r < 0.8 else list(reversed(cells)))])
+            clad.spatialLocator = own
+        children += [pin, clad]
+    single = Circle("instrument", "HT9", Tinput=25.0, Thot=25.0, od=0.2, id=0.0, mult=1)
+    single.spatialLocator = grid[rng.randint(-3, 3), rng.randint(-3, 3), 0]
+    free = Circle("spacer", "HT9", Tinput=25.0, Thot=25.0, od=0.2, id=0.0, mult=1)
+    free.spatialLocator = grids.CoordinateLocation(common.dyadic(rng, -3, 3, 5), common.dyadic(rng, -3, 3, 5), common.dyadic(rng, -1, 1, 3), grid)
+    bare = Circle("tag", "HT9", Tinput=25.0, Thot=25.0, od=0.1, id=0.0, mult=1)
+    children += [single, free, bare]
+    if rng.random() < 0.3:
+        empty = Circle("unplaced", "HT9", Tinput=25.0, Thot=25.0, od=0.1, id=0.0, mult=1)
+        empty.spatialLocator = grids.MultiIndexLocation(grid)                         # a multi-locator without sites
+        children.append(empty)
+    rng.shuffle(children)
+    for c in children:
+        b.add(c)
+    b.add(Hexagon("duct", "HT9", 25.0, 25.0, ip=16.0, op=16.6, mult=1))
+    return b, sites
+
+
+def fresh_copy(b):
+    """private deep copy; the locator-less child loses its locator only now (Composite.__setstate__ cannot re-associate
+    a child without locator, so such a block cannot be deep-copied)."""
+    b2 = copy.deepcopy(b)
+    for c in b2:
+        if c.name == "tag":
+            c.spatialLocator = None
+    return b2
+
+
+def site_snapshot(b):
+    """per child: (name, locator kind, integer sites, local coordinates of every site, id of the locator object)."""
+    from armi.reactor import grids
+
+    out = []
+    for c in b:
+        loc = c.spatialLocator
+        if isinstance(loc, grids.MultiIndexLocation):
+            out.append((c.name, "m", [(int(l.i), int(l.j), int(l.k)) for l in loc],
+                        [[float(v) for v in l.getLocalCoordinates()] for l in loc], id(loc),
+                        all(l.grid is b.spatialGrid for l in loc) and loc.grid is b.spatialGrid))
+        elif isinstance(loc, grids.CoordinateLocation):
+            out.append((c.name, "c", [], [[float(v) for v in loc.getLocalCoordinates()]], id(loc), loc.grid is b.spatialGrid))
+        elif isinstance(loc, grids.IndexLocation):
+            out.append((c.name, "i", [(int(loc.i), int(loc.j), int(loc.k))], [[float(v) for v in loc.getLocalCoordinates()]],
+                        id(loc), loc.grid is b.spatialGrid))
+        else:
+            out.append((c.name, "n", [], [], None, True))
+    return out
+
+
+def _sorted_pts(pts):
+    return sorted(pts, key=lambda p: (round(p[0], 6), round(p[1], 6), round(p[2], 6)))
+
+
+def multi_oracle(ctx, case, snap0, snap1, k, pins0, pins1):
+    """the property's clauses for a block whose children have DIFFERENT site sets: every child, every site."""
+    if [(n, kd) for n, kd, *_ in snap0] != [(n, kd) for n, kd, *_ in snap1]:
+        ctx.fail("hexblock-rotate-child-kind", "children and their locator kinds are unchanged by rotate", case,
+                 observed=[(n, kd) for n, kd, *_ in snap1], expected=[(n, kd) for n, kd, *_ in snap0])
+        return
+    for (name, kind, s0, x0, _id0, _g0), (_n, _k, s1, x1, _id1, g1) in zip(snap0, snap1):
+        if kind == "n":
+            continue
+        ccase = {**case, "child": name, "sites_before": s0[:12]}
+        want = [list(rotxy(p[0], p[1], k)) + [p[2]] for p in x0]
+        if len(x1) != len(x0):
+            ctx.fail("hexblock-rotate-site-count", "a child keeps its number of sites", ccase, observed=len(x1), expected=len(x0))
+            continue
+        a, w = _sorted_pts(x1), _sorted_pts(want)
+        if any(abs(p[d] - q[d]) > 1e-8 for p, q in zip(a, w) for d in range(3)):
+            ctx.fail("hexblock-rotate-child-sites", "the sites of EVERY child after rotate(k*60deg) are that child's own sites "
+                     "rotated by k*60 degrees counter-clockwise about the block centre (as a multiset)", ccase,
+                     observed={"sites_after": s1[:12], "coords_after": a[:6]}, expected={"coords": w[:6]})
+        elif kind == "m" and any(abs(p[d] - q[d]) > 1e-8 for p, q in zip(x1, want) for d in range(3)):
+            ctx.count("multi-location child: rotated multiset kept but site order changed")
+        if not g1:
+            ctx.fail("hexblock-rotate-child-grid", "rotated locators live in the block's own grid", ccase, observed="other grid")
+    multis0 = [(n, frozenset(s)) for n, kd, s, *_ in snap0 if kd == "m"]
+    multis1 = [(n, frozenset(s)) for n, kd, s, *_ in snap1 if kd == "m"]
+    for a in range(len(multis0)):
+        for c in range(a + 1, len(multis0)):
+            if (multis0[a][1] == multis0[c][1]) != (multis1[a][1] == multis1[c][1]):
+                ctx.fail("hexblock-rotate-children-stay-distinct", "children at different sites stay at different sites (and "
+                         "children at the same sites stay together)", {**case, "children": [multis0[a][0], multis0[c][0]]},
+                         observed=[sorted(multis1[a][1])[:8], sorted(multis1[c][1])[:8]],
+                         expected=[sorted(multis0[a][1])[:8], sorted(multis0[c][1])[:8]])
+    if len(pins0):
+        exp = np.array([list(rotxy(p[0], p[1], k)) + [p[2]] for p in pins0])
+        if pins1.shape != exp.shape or np.abs(pins1 - exp).max() > 1e-8:
+            ctx.fail("hexblock-rotate-pins", "pin coordinates after rotate(k*60deg) == R(60k) pin coordinates before",
+                     case, observed=float(np.abs(pins1 - exp).max()) if pins1.shape == exp.shape else "shape")
+
+
+def rotate_and_judge(ctx, b, case, ks, req, pending):
+    """rotate ONE block through the sequence ks; after every step judge against the ORIGINAL state (additivity), compare
+    the single step with the model, and finish the turn (identity at a multiple of six)."""
+    snap0 = site_snapshot(b)
+    pins0 = b.getPinCoordinates().copy() if len(b.getPinLocations()) else np.zeros((0, 3))
+    total = 0
+    for n, k in enumerate(ks):
+        before = block_state(b)
+        rad = k * math.pi / 3
+        rotNum = round((rad % (2 * math.pi)) / math.radians(60))
+        b.rotate(rad)
+        total += k
+        after = block_state(b)
+        pins1 = b.getPinCoordinates() if len(pins0) else np.zeros((0, 3))
+        c2 = {**case, "rotations": list(ks[: n + 1])}
+        multi_oracle(ctx, c2, snap0, site_snapshot(b), total, pins0, pins1)
+        req.append(encode_block(before, rotNum)); pending.append((c2, after))
+        ctx.count("HexBlock.rotate on blocks with several distinct multi-location children")
+    back = (-total) % 6
+    b.rotate(back * math.pi / 3)
+    snap6 = site_snapshot(b)
+    for (name, kind, s0, *_r0), (_n, _k, s1, *_r1) in zip(snap0, snap6):
+        if kind in ("m", "i") and sorted(s0) != sorted(s1):
+            ctx.fail("hexblock-rotate-identity-at-six", "rotations adding up to a multiple of six restore every child's sites",
+                     {**case, "rotations": list(ks) + [back], "child": name}, observed=s1[:12], expected=s0[:12])
+
+
+def run_multi_blocks(ctx):
+    """C08-a: blocks whose pin lattice holds several multi-location children with the same number of sites at different
+    sites (blueprint lattice maps with 2-4 pin types; hand-built blocks incl. shared locator objects), and assemblies of
+    such blocks."""
+    rng = ctx.rng
+    req, pending = [], []
+    asm_req, asm_pending = [], []
+    nrep = ctx.pick(1, 4)
+    allk = list(range(0, 12))
+    for rep in range(nrep):
+        for fi, family in enumerate(LATTICE_FAMILIES):
+            for cu in (False, True):
+                # --- blueprint-built assembly
+                with hushed():
+                    a, sites, txt = blueprint_assembly(rng, family, cu)
+                case0 = {"source": "blueprint lattice map", "family": family, "cornersUp": cu,
+                         "pin_types": {str(t): v[:8] for t, v in sites.items()}}
+                blk = a[0]
+                ks1 = allk + [rng.choice([-1, -5, -8, 13])] + ([-14, -7, 14] if ctx.thorough else [])
+                for k in ks1:
+                    rotate_and_judge(ctx, copy.deepcopy(blk), case0, [k], req, pending)
+                for _ in range(ctx.pick(2, 6)):
+                    rotate_and_judge(ctx, copy.deepcopy(blk), case0, [rng.randint(-7, 12) for _ in range(rng.randint(2, 4))], req, pending)
+                # the whole assembly
+                third = math.pi / 3
+                angles = [(k, k * third) for k in (rng.sample(allk, 2) if not ctx.thorough else allk[::2] + [-1])]
+                angles.append((rng.choice(allk), None))                       # a multiple of 60 degrees up to 1e-13
+                angles[-1] = (angles[-1][0], angles[-1][0] * third + rng.choice([1e-13, -1e-13, 5e-13]))
+                angles.append((None, rng.choice([0.5, math.pi / 7, -0.3, math.pi / 6, third + 1e-6, 2 * third - 1e-7, 1e-9])))
+                for k, rad in angles:
+                    a2 = copy.deepcopy(a)
+                    snaps = [site_snapshot(b) for b in a2]
+                    pins = [b.getPinCoordinates().copy() for b in a2]
+                    befores = [block_state(b) for b in a2]
+                    rotNum = round((rad % (2 * math.pi)) / math.radians(60))
+                    acase = {**case0, "assembly": True, "k": k, "rad": rad}
+                    try:
+                        with common.quiet(), hushed():
+                            a2.rotate(rad)
+                        accepted = True
+                    except ValueError:
+                        accepted = False
+                    afters = [block_state(b) for b in a2]
+                    asm_req.append(f"rotassembly {rotNum} {common.rat(third)} {common.rat(rad % third)} {common.rat(1e-12)} " +
+                                   " ".join(encode_block(st, rotNum).split(" ", 2)[2] for st in befores))
+                    asm_pending.append((acase, accepted, afters))
+                    if k is None:
+                        if accepted:
+                            ctx.fail("hexassembly-rotate-non-multiple", "a rotation that is no multiple of 60 degrees is refused",
+                                     acase, observed="accepted")
+                        elif afters != befores:
+                            ctx.fail("hexassembly-rotate-non-multiple", "a refused rotation changes nothing", acase)
+                        continue
+                    if not accepted:
+                        ctx.fail("hexassembly-rotate-refuses-multiple-of-60", "HexAssembly.rotate(k*pi/3) rotates for every integer k",
+                                 acase, observed="ValueError")
+                        continue
+                    for n, b in enumerate(a2):
+                        multi_oracle(ctx, {**acase, "assembly_block": n}, snaps[n], site_snapshot(b), k, pins[n], b.getPinCoordinates())
+                    ctx.count("HexAssembly.rotate on assemblies of multi-pin-type blocks")
+                ctx.case(("multiblock-bp", rep, family, cu), sample={"blueprint": txt[-400:], "pin_types": case0["pin_types"]}
+                         if (rep, fi, cu) == (0, 0, False) else None)
+                # --- hand-built block
+                for v in range(ctx.pick(2, 4)):
+                    sb, ssites = synthetic_block(rng, family, cu)
+                    case1 = {"source": "hand-built block", "family": family, "cornersUp": cu,
+                             "pin_types": {str(t): c[:8] for t, c in ssites.items()},
+                             "children": [(c.name, type(c.spatialLocator).__name__) for c in sb]}
+                    for k in (allk if ctx.thorough else rng.sample(allk, 4)):
+                        rotate_and_judge(ctx, fresh_copy(sb), case1, [k], req, pending)
+                    rotate_and_judge(ctx, fresh_copy(sb), case1, [rng.randint(-7, 12) for _ in range(rng.randint(2, 4))], req, pending)
+                    ctx.case(("multiblock-synth", rep, family, cu, v))
+    model = lean_run("Hex", req + asm_req)
+    for line, (case, after) in zip(model, pending):
+        compare_block(ctx, case, line, after)
+    for line, (case, accepted, afters) in zip(model[len(req):], asm_pending):
+        if (line == "reject") != (not accepted) or line == "bad-op":
+            ctx.disagree("Hex.rotateHexAssembly vs HexAssembly.rotate (accept / refuse)", case, line, "accepted" if accepted else "ValueError")
+        elif accepted:
+            parts = line.split(" ; ")
+            if len(parts) != len(afters):
+                ctx.disagree("Hex.rotateHexAssembly vs HexAssembly.rotate (number of blocks)", case, len(parts), len(afters))
+            else:
+                for n, (pl, after) in enumerate(zip(parts, afters)):
+                    compare_block(ctx, {**case, "assembly_block": n}, pl, after)
+    ctx.evaluations += len(req) + len(asm_req)
+
+
 # ------------------------------------------------------------------------------------------ entry points
 def run(ctx):
     N = run_hex(ctx)
@@ -735,6 +1175,7 @@ def run(ctx):
     run_symmetry_sequences(ctx)
     run_pivot(ctx)
     run_blocks(ctx)
+    run_multi_blocks(ctx)
     ctx.exhaustive = True
     ctx.rule = (f"exhaustive: every hex cell within {N} rings x k in -14..14 x both orientations (rotateIndex), every such "
                 f"cell for third-core equivalents / first third / line class, every cell number x orientation for "
@@ -742,7 +1183,8 @@ def run(ctx):
                 f"query sequences on one live hex (every cell) and Cartesian grid object; pivot on lists/arrays "
                 "of length 0..12 x all positions; real fuel HexBlocks (deep copies, every locator kind, random dyadic "
                 "corner/edge vectors and displacement) x every k, plus a second rotation (composition); one real "
-                "HexAssembly x every k. distinct = distinct cells / (block, variant, k); each compared with the model "
+                "HexAssembly x every k; blocks with 2-4 pin types at different sites (6 lattice families x both orientations, "
+                "from blueprint lattice maps and hand-built, seeded) x k in 0..11 and rotation sequences, assemblies of them. distinct = distinct cells / (block, variant, k); each compared with the model "
                 "and judged by the geometric oracle.")
 
 
@@ -801,11 +1243,19 @@ def search(ctx, disagreements, broken):
                 done.add("symseq")
                 run_symmetry_sequences(sub)
         elif isinstance(c, (list, tuple)) and c and c[0] == "pivot":
-            run_pivot(sub)
+            if "pivot" not in done:
+                done.add("pivot")
+                run_pivot(sub)
         elif isinstance(c, (list, tuple)) and c and c[0] == "rotcell":
             sub.tier = "quick"
         elif isinstance(c, dict) and "block" in c:
-            run_blocks(sub)
+            if "blocks" not in done:
+                done.add("blocks")
+                run_blocks(sub)
+        elif isinstance(c, dict) and "source" in c:
+            if "multi" not in done:
+                done.add("multi")
+                run_multi_blocks(sub)
     known = {f["key"] for f in common.load_findings()["finding"] if f["property"] == ctx.prop}
     seen, out = set(), []
     for f in sub.failures:
@@ -821,6 +1271,7 @@ def replay(ctx, payload):
     sub = type(ctx)(ctx.prop, "quick", int(payload.get("seed", 0)))
     if key.startswith("hexblock") or key.startswith("hexassembly"):
         run_blocks(sub)
+        run_multi_blocks(sub)
     elif key.startswith("symmetry-reassigned"):
         run_symmetry_sequences(sub)
     elif key.startswith("cart"):
